@@ -324,9 +324,8 @@ fn ids<'a>(it: impl Iterator<Item = cedar_policy::Policy> + 'a) -> BTreeSet<Stri
 }
 
 pub fn run(tier: Tier, replay_file: Option<&str>) -> i32 {
-    if replay_file.is_some() {
-        eprintln!("C13 replay: re-run the check (cases are identified by fingerprint + policy text in the replay file)");
-        return 2;
+    if let Some(p) = replay_file {
+        return replay_by_rerun("C13", p, || run(Tier::Quick, None));
     }
     let ctx = Ctx::new("C13", tier);
     quiet_panics();
